@@ -340,7 +340,7 @@ class Lib(object):
 # ---------------------------------------------------------------------------------------------
 # case generation
 # ---------------------------------------------------------------------------------------------
-GCM_NONCES = [1, 7, 8, 11, 12, 13, 15, 16, 17, 32, 64, 255]
+GCM_NONCES = [1, 7, 8, 11, 12, 12, 12, 13, 15, 16, 17, 32, 64, 255]      # 12 (the 96-bit J0 path) weighted x3
 EAX_CIPHERS = [("AES", 16), ("AES", 24), ("AES", 32), ("DES3", 16), ("DES3", 24), ("DES", 8), ("Blowfish", 4), ("Blowfish", 16),
                ("Blowfish", 28), ("Blowfish", 56), ("CAST", 5), ("CAST", 10), ("CAST", 12), ("CAST", 16), ("ARC2", 5), ("ARC2", 16), ("ARC2", 128)]
 EAX_NONCES = [1, 7, 8, 9, 15, 16, 17, 32, 64]
